@@ -162,3 +162,57 @@ def gen_arity():
     rest = tail[tail.index('//@END-GENERATED-ARITY'):]
     open(p, 'w').write(head + '//@GENERATED-ARITY\n' + '\n'.join(out) + '\n' + rest)
 # gen_arity()  -- op_from_map on real BTreeMap-backed objects does not finish in CBMC; it is under Verus instead
+
+
+def gen_array():
+    out = []
+    modes = {0: 'lit', 1: 'cnew', 2: 'craw', 3: 'litnull', 4: 'cnull', 5: 'litnum', 6: 'cerr', 7: 'cbool'}
+    def q(op, mode, n, epat, ppat, tier, note):
+        is_all = 'true' if op == 'all' else 'false'
+        h = 'k_c14_%s_%s_%d_e%d_p%d' % (op, modes[mode], n, epat, ppat)
+        props = 'C14,C04,C06,C01'
+        out.append('    //@ob name=C14.%s.%s.%d.e%d.p%d harness=%s props=%s tier=%s strength=bounded bound="%s; %d elements; element/predicate success pattern e=%s p=%s; values and predicate answers symbolic" fns=op::array::%s stubs=4 timeout=300 cutdrop=2 group=medium'
+                   % (op, modes[mode], n, epat, ppat, h, props, tier, note, n, bin(epat), bin(ppat), op))
+        out.append('    //@ desc="%s: truth value, error cases, short-circuit evaluation log and scoping (literal-array elements evaluated against the outer data, computed elements passed as data UNPARSED, predicate sees the element) equal the spec"' % op)
+        out.append('    quant_harness!(%s, %s, %d, %d, %d, %d);' % (h, is_all, mode, n, epat, ppat))
+    for op in ('all', 'some'):
+        q(op, 0, 2, 3, 3, 'quick', 'collection written as a literal array of expressions')
+        q(op, 1, 2, 3, 3, 'quick', 'collection computed (fresh array)')
+        q(op, 2, 1, 1, 1, 'quick', 'collection computed (borrowed array)')
+        q(op, 0, 0, 0, 0, 'quick', 'empty literal array')
+        q(op, 3, 0, 0, 0, 'quick', 'literal null')
+        q(op, 4, 0, 0, 0, 'quick', 'computed null')
+        q(op, 5, 0, 0, 0, 'quick', 'literal number (not a collection)')
+        q(op, 6, 0, 0, 0, 'thorough', 'collection evaluation fails')
+        q(op, 7, 0, 0, 0, 'thorough', 'computed boolean (not a collection)')
+        q(op, 0, 2, 1, 3, 'thorough', 'literal array, second element expression fails')
+        q(op, 1, 2, 3, 1, 'thorough', 'computed array, second predicate call fails')
+        q(op, 0, 3, 7, 7, 'thorough', 'literal array of three')
+        q(op, 1, 3, 7, 7, 'thorough', 'computed array of three')
+    p = os.path.join(VERIF, 'kani', 'op__array.rs')
+    s = open(p).read()
+    head, tail = s.split('//@GENERATED-QUANT', 1)
+    rest = tail[tail.index('//@END-GENERATED-QUANT'):]
+    s = head + '//@GENERATED-QUANT\n' + '\n'.join(out) + '\n' + rest
+    out = []
+    cm = {0: 'new', 1: 'raw', 2: 'null', 3: 'other', 4: 'err'}
+    def mf(op, cmode, n, ppat, tier):
+        h = 'k_c13_%s_%s_%d_p%d' % (op, cm[cmode], n, ppat)
+        out.append('    //@ob name=C13.%s.%s.%d.p%d harness=%s props=C13,C04,C06,C01 tier=%s strength=bounded bound="collection outcome %s; %d elements; expression success pattern %s; element values and expression values symbolic" fns=op::array::%s stubs=4 timeout=300 cutdrop=2 group=medium'
+                   % (op, cm[cmode], n, ppat, h, tier, cm[cmode], n, bin(ppat), op))
+        out.append('    //@ desc="%s: collection evaluated once against the outer data, expression once per element with the element itself as data, in order; result = %s; null collection is empty, other non-arrays and failing evaluations are errors"'
+                   % (op, 'the expression values in order (same length)' if op == 'map' else 'exactly the elements whose value is truthy, unchanged, in order'))
+        out.append('    mapfilter_harness!(%s, %s, %d, %d, %d);' % (h, 'true' if op == 'map' else 'false', cmode, n, ppat))
+    for op in ('map', 'filter'):
+        mf(op, 0, 2, 3, 'quick')
+        mf(op, 1, 2, 3, 'quick')
+        mf(op, 2, 0, 0, 'quick')
+        mf(op, 3, 0, 0, 'quick')
+        mf(op, 4, 0, 0, 'thorough')
+        mf(op, 0, 0, 0, 'thorough')
+        mf(op, 1, 2, 1, 'thorough')
+        mf(op, 0, 3, 7, 'thorough')
+    head, tail = s.split('//@GENERATED-MAPFILTER', 1)
+    rest = tail[tail.index('//@END-GENERATED-MAPFILTER'):]
+    open(p, 'w').write(head + '//@GENERATED-MAPFILTER\n' + '\n'.join(out) + '\n' + rest)
+gen_array()
